@@ -104,6 +104,10 @@ func init() {
 	register(&Profile{Name: "C02", Prop: "C02", Gen: genC02, Check: checkC02})
 }
 
+// c02SizeCap bounds argument and reply sizes when genC02 is reused by a profile with tiny socket buffers (C19): moving
+// 200 KB through an 8-byte send buffer takes more polls than the settle phase allows and would look like a missing reply.
+var c02SizeCap = 0
+
 func genC02(g *Gen) {
 	p := g.Plan
 	p.Topos = []Topology{g.pickTopology()}
@@ -111,6 +115,13 @@ func genC02(g *Gen) {
 	g.swarmKernel(false)
 	p.Proxy.BufCap = []int{16, 64, 257, 4096, 65536}[g.R.Intn(5)]
 	maxBig := 70000
+	sizeCap := c02SizeCap
+	if sizeCap == 0 && (p.Kernel.ClientSndCap < 512 || p.Kernel.BackendSndCap < 512 || p.Proxy.BufCap < 257) {
+		sizeCap = 20000 // keep transfers through tiny send buffers within the settle phase's step budget
+	}
+	if sizeCap > 0 {
+		maxBig = sizeCap
+	}
 	if p.Variant == "big" {
 		maxBig = 1 << 22
 		p.Proxy.MsgMax = []int{6 << 20, 3 << 20}[g.R.Intn(2)]
@@ -135,6 +146,9 @@ func genC02(g *Gen) {
 				suffix = fmt.Sprintf("~S%d", g.R.Intn(12))
 				if g.R.Pct(25) {
 					big := []int{0, 1, 1023, 65535, 65536, 65537, 200000}[g.R.Intn(7)]
+					if sizeCap > 0 && big > sizeCap {
+						big = sizeCap - g.R.Intn(3)
+					}
 					if p.Variant == "big" && g.R.Pct(30) {
 						big = g.R.Range(1<<20, 5<<20)
 					}
@@ -781,4 +795,31 @@ func checkC10(d *Driver, res *Result) {
 	d.Counters["c10_set_get_pairs"] = pairs
 	res.Nontrivial = d.K.Stats.EAGAINWrite+d.K.Stats.ShortWrites > 0 || len(d.Clients) > 1
 	res.Sample = fmt.Sprintf("%d clients, %d requests, %d SET;GET pairs, %d commands at backends, %d short/blocked writes", len(d.Clients), totalReqs(d), pairs, crossings, d.K.Stats.EAGAINWrite+d.K.Stats.ShortWrites)
+}
+
+// ---- C19 (system level): replies of any size reach slow readers complete and uncorrupted ----
+
+func init() {
+	register(&Profile{Name: "C19", Prop: "C19", Gen: func(g *Gen) {
+		c02SizeCap = 6000
+		genC02(g)
+		c02SizeCap = 0
+		p := g.Plan
+		p.Proxy.BufCap = []int{16, 64, 257}[g.R.Intn(3)]
+		p.Kernel.ClientSndCap = []int{8, 64, 64, 512}[g.R.Intn(4)]
+		p.Kernel.BackendSndCap = []int{8, 64, 512, 1 << 20}[g.R.Intn(4)]
+		p.Sched.SettleS = 12
+		p.Kernel.ShortWritePct = g.R.Range(10, 50)
+		p.Kernel.ShortReadPct = g.R.Range(0, 50)
+		for i := range p.Clients {
+			p.Clients[i].Slow = g.R.Pct(60)
+		}
+		p.Sched.MaxSteps = 20000
+	}, Check: func(d *Driver, res *Result) {
+		d.StdReplyCheck("C19", Relax{})
+		d.checkRawPassThrough("C19")
+		res.Nontrivial = d.K.Stats.EAGAINWrite > 0 && d.K.Stats.ShortWrites > 0
+		res.Sample = fmt.Sprintf("%d clients (slow readers), %d requests, read buffer %d B, client send buffer %d B, backend send buffer %d B: %d blocked and %d short writes, %d short reads",
+			len(d.Clients), totalReqs(d), d.P.Proxy.BufCap, d.P.Kernel.ClientSndCap, d.P.Kernel.BackendSndCap, d.K.Stats.EAGAINWrite, d.K.Stats.ShortWrites, d.K.Stats.ShortReads)
+	}})
 }
